@@ -424,10 +424,9 @@ alternatives:
 			// bind like an assignment does: scalars are copied, arrays and
 			// objects shared, so that assigning to the name in the case body
 			// does not write through to the matched value
-			bound := value
+			// (copyValue refuses functions, a cell of its own does for them)
+			bound := NewCell(value.Value)
 			if value.Value.Tag != ValueFn && value.Value.Tag != ValueNativeFn {
-				// (functions cannot be copied, they are bound as they are)
-				bound = NewCell(NewValue(nil))
 				if _, err := copyValue(value, bound); err != nil {
 					return false, nil, e.error(expr.Token(), err.Error())
 				}
